@@ -433,28 +433,40 @@ func endToEnd(r *Result, ca *tlsm.CA) {
 	<-init
 	ccfg := &tls.Config{RootCAs: ca.Pool, Certificates: []tls.Certificate{tlsm.Leaf(ca, tlsm.LeafOpts{Host: "client"})}}
 	kmip.DefaultClientTLSConfig(ccfg)
-	cl := &kmip.Client{Endpoint: ln.Addr().String(), TLSConfig: ccfg, ReadTimeout: 3 * time.Second, WriteTimeout: 3 * time.Second}
-	if err := cl.Connect(); err != nil {
-		r.find(Finding{Kind: "violation", What: "Client cannot connect to the package's own Server", Input: err.Error()})
-	} else {
+	// every way the Client's two timeouts can be configured - "zero: not enforced" - and, for the short ones, with pauses
+	// between the requests longer than the timeout: the exchange is the same
+	const T = 200 * time.Millisecond
+	for _, tc := range []struct{ rt, wt time.Duration }{{3 * time.Second, 3 * time.Second}, {0, 0}, {T, 0}, {0, T}, {T, 3 * time.Second}} {
+		cfgName := fmt.Sprintf("Client{ReadTimeout: %v, WriteTimeout: %v}", tc.rt, tc.wt)
+		cl := &kmip.Client{Endpoint: ln.Addr().String(), TLSConfig: ccfg, ReadTimeout: tc.rt, WriteTimeout: tc.wt}
+		if err := cl.Connect(); err != nil {
+			r.find(Finding{Kind: "violation", What: "Client cannot connect to the package's own Server", Input: cfgName + ": " + err.Error()})
+			continue
+		}
 		for i := 0; i < 5; i++ {
 			sent := kmip.GetRequest{UniqueIdentifier: fmt.Sprintf("key-%d", i), KeyFormatType: kmip.Enum(i)}
 			resp, err := cl.Send(kmip.OPERATION_GET, sent)
-			r.eval(fmt.Sprintf("end-to-end-%d", i), true)
+			r.eval(fmt.Sprintf("end-to-end-%d %s", i, cfgName), true)
 			want := kmip.GetResponse{ObjectType: kmip.OBJECT_TYPE_SYMMETRIC_KEY, UniqueIdentifier: sent.UniqueIdentifier + "-answer"}
 			mu.Lock()
-			got := seen[len(seen)-1]
+			var got interface{}
+			if len(seen) > 0 {
+				got = seen[len(seen)-1]
+			}
 			mu.Unlock()
 			if err != nil || !reflect.DeepEqual(resp, want) {
-				r.find(Finding{Kind: "violation", What: "end to end: the payload returned is not what the handler returned", Input: fmt.Sprintf("%+v", sent), Expect: fmt.Sprintf("%+v", want), Actual: fmt.Sprintf("%+v %v", resp, err)})
+				r.find(Finding{Kind: "violation", What: "end to end: the payload returned is not what the handler returned", Input: fmt.Sprintf("%s, request %d: %+v", cfgName, i, sent), Expect: fmt.Sprintf("%+v", want), Actual: fmt.Sprintf("%+v %v", resp, err)})
 			}
 			if !reflect.DeepEqual(got, sent) {
-				r.find(Finding{Kind: "violation", What: "end to end: the handler did not receive what was sent", Input: fmt.Sprintf("%+v", sent), Actual: fmt.Sprintf("%+v", got)})
+				r.find(Finding{Kind: "violation", What: "end to end: the handler did not receive what was sent", Input: fmt.Sprintf("%s, request %d: %+v", cfgName, i, sent), Actual: fmt.Sprintf("%+v", got)})
+			}
+			if i < 2 && (tc.rt == T || tc.wt == T) {
+				time.Sleep(T + T/2)
 			}
 		}
 		vs, err := cl.DiscoverVersions(nil)
 		if err != nil || len(vs) != 4 {
-			r.find(Finding{Kind: "violation", What: "end to end: DiscoverVersions against the package's own Server", Actual: fmt.Sprint(vs, err)})
+			r.find(Finding{Kind: "violation", What: "end to end: DiscoverVersions against the package's own Server", Input: cfgName, Actual: fmt.Sprint(vs, err)})
 		}
 		cl.Close()
 	}
